@@ -22,4 +22,13 @@ CHECKS = {
   "note": "Trusted: Coq kernel + vm_compute; gen_tables.py; adapters; the regex tokeniser/printer of extension strings is glue exercised end to end "
           "(a defect found there was fixed: 8bc1777). Pitch-class theorem for modifier sets of size > 2 is tied only by correspondence + oracle.",
  },
+ "C04": {
+  "text": "Theorems (all degrees/octaves in Z, any chord incl. modifier sets): modulation by a same-mode tonality moves every scale/chromatic/"
+          "chord-tone/bass-tone pitch by degree + 12*octave and leaves absolute and drum notes alone; chord octave and note octave move by 12k; "
+          "(c % a) % b = c % (a + b) field-wise; tonality addition associative, normalised, neutral elements, undone by subtraction; __eq__ is "
+          "the kernel of normalisation. Rendering-level and structural clauses (Score % t, Score.o, melodies kept by Chord.__call__, timing unchanged) "
+          "are evaluated on the implementation by the python oracle and, for rendering, by C03's model.",
+  "note": "Trusted: Coq kernel; gen_tables.py; adapters. Chords built without a tonality are outside the quantifier. Structural clauses on "
+          "Score/Melody are tied by oracle only (they are maps over the proven per-chord/per-note operations).",
+ },
 }
